@@ -267,12 +267,7 @@ impl<T: PPGEvaluatorStrategy> PPGEvaluator<T> {
 
     /// representation invariant without the "queue is empty" clause (holds between signals)
     spec fn wf_core(&self) -> bool {
-        &&& ids_wf(self.jobs@, self.job_id_to_node_idx@)
-        &&& edges_in_range(&self.dag, self.jobs@.len())
-        &&& ready_set_wf(self.jobs@, self.jobs_ready_to_run@, self.job_id_to_node_idx@)
-        &&& cleanup_set_wf(self.jobs@, self.jobs_ready_for_cleanup@, self.job_id_to_node_idx@)
-        &&& out_wf(self.jobs@)
-        &&& (self.already_started is Finished ==> forall|i: int| 0 <= i < self.jobs@.len() ==> finished(#[trigger] self.jobs@[i].state))
+        core_ok(self.jobs@, self.job_id_to_node_idx@, &self.dag, self.jobs_ready_to_run@, self.jobs_ready_for_cleanup@, self.already_started is Finished)
     }
 
     /// representation invariant between public calls
@@ -971,5 +966,283 @@ spec fn up_invalidating(dag0: &GraphType, strategy: &dyn PPGEvaluatorStrategy, h
         }
     } else {
         Some(false)
+    }
+}
+
+// ---- signals
+spec fn sigs_valid(s: Seq<Signal>, n: nat) -> bool {
+    forall|k: int| 0 <= k < s.len() ==> (#[trigger] s[k]).node_idx < n
+}
+
+/// helper-level frames on the job table
+spec fn jobs_touch(a: Seq<NodeInfo>, b: Seq<NodeInfo>) -> bool {
+    &&& a.len() == b.len()
+    &&& forall|i: int| 0 <= i < a.len() ==> (#[trigger] b[i]).job_id == a[i].job_id && b[i].history_output == a[i].history_output
+            && b[i].state == a[i].state
+}
+
+/// only pre-offer states move (within pre-offer); ids and outputs untouched
+spec fn jobs_soft(a: Seq<NodeInfo>, b: Seq<NodeInfo>) -> bool {
+    &&& a.len() == b.len()
+    &&& forall|i: int| 0 <= i < a.len() ==> (#[trigger] b[i]).job_id == a[i].job_id && b[i].history_output == a[i].history_output
+            && (b[i].state == a[i].state || (pre_offer(a[i].state) && pre_offer(b[i].state) && same_kind(a[i].state, b[i].state)))
+}
+
+/// `b` extends `a` by ConsiderJob signals for valid nodes only
+spec fn sig_ext_consider(a: Seq<Signal>, b: Seq<Signal>, n: nat) -> bool {
+    &&& a.len() <= b.len()
+    &&& forall|k: int| 0 <= k < a.len() ==> #[trigger] b[k] == a[k]
+    &&& forall|k: int| a.len() <= k < b.len() ==> (#[trigger] b[k]).kind == SignalKind::ConsiderJob && b[k].node_idx < n
+}
+
+proof fn lemma_sig_ext_trans(a: Seq<Signal>, b: Seq<Signal>, c: Seq<Signal>, n: nat)
+    requires sig_ext_consider(a, b, n), sig_ext_consider(b, c, n),
+    ensures sig_ext_consider(a, c, n),
+{
+    assert forall|k: int| 0 <= k < a.len() implies #[trigger] c[k] == a[k] by { assert(b[k] == a[k]); }
+}
+
+proof fn lemma_sig_ext_valid(a: Seq<Signal>, b: Seq<Signal>, n: nat)
+    requires sig_ext_consider(a, b, n), sigs_valid(a, n),
+    ensures sigs_valid(b, n),
+{
+    assert forall|k: int| 0 <= k < b.len() implies (#[trigger] b[k]).node_idx < n by {
+        if k < a.len() { assert(b[k] == a[k]); }
+    }
+}
+
+proof fn lemma_jobs_touch_trans(a: Seq<NodeInfo>, b: Seq<NodeInfo>, c: Seq<NodeInfo>)
+    requires jobs_touch(a, b), jobs_touch(b, c),
+    ensures jobs_touch(a, c),
+{
+    assert forall|i: int| 0 <= i < a.len() implies (#[trigger] c[i]).job_id == a[i].job_id && c[i].history_output == a[i].history_output
+        && c[i].state == a[i].state by { assert(b[i].job_id == a[i].job_id); }
+}
+
+// ---- cleanup (C13)
+spec fn is_nrfc(s: JobState) -> bool { s == JobState::Ephemeral(JobStateEphemeral::FinishedSuccessNotReadyForCleanup) }
+spec fn is_skipfc(s: JobState) -> bool { s == JobState::Ephemeral(JobStateEphemeral::FinishedSuccessSkipCleanup) }
+
+/// what consider_upstreams_for_cleanup may do to the job table: ids / outputs fixed, a state
+/// changes only from "executed, cleanup pending" to "offered for cleanup" or "cleanup skipped"
+spec fn cleanup_frame(a: Seq<NodeInfo>, b: Seq<NodeInfo>) -> bool {
+    &&& a.len() == b.len()
+    &&& forall|i: int| 0 <= i < a.len() ==> (#[trigger] b[i]).job_id == a[i].job_id && b[i].history_output == a[i].history_output
+            && (b[i].state == a[i].state || (is_nrfc(a[i].state) && (is_rfc(b[i].state) || is_skipfc(b[i].state))))
+}
+
+/// C13: the decision for one executed Ephemeral e, judged on the states at the time of the call
+spec fn cleanup_decided(dag: &GraphType, jobs0: Seq<NodeInfo>, e: usize, new_state: JobState) -> bool {
+    let all_ok = forall|d: usize| #![trigger dag.is_nbr(e, Direction::Outgoing, d)] dag.is_nbr(e, Direction::Outgoing, d)
+        ==> finished(jobs0[d as int].state) && !failed(jobs0[d as int].state);
+    if !is_nrfc(jobs0[e as int].state) {
+        new_state == jobs0[e as int].state
+    } else {
+        &&& (is_rfc(new_state) <==> all_ok)
+        &&& (is_nrfc(new_state) ==> exists|d: usize| #![trigger dag.is_nbr(e, Direction::Outgoing, d)] dag.is_nbr(e, Direction::Outgoing, d) && !finished(jobs0[d as int].state))
+        &&& (is_skipfc(new_state) ==> exists|d: usize| #![trigger dag.is_nbr(e, Direction::Outgoing, d)] dag.is_nbr(e, Direction::Outgoing, d) && failed(jobs0[d as int].state))
+        &&& (is_rfc(new_state) || is_nrfc(new_state) || is_skipfc(new_state))
+    }
+}
+
+/// one iteration of consider_upstreams_for_cleanup's outer loop
+proof fn lemma_cleanup_step(dag: &GraphType, jobs0: Seq<NodeInfo>, j0: Seq<NodeInfo>, j1: Seq<NodeInfo>,
+    set0: Set<String>, set1: Set<String>, e: usize)
+    requires
+        cleanup_frame(jobs0, j0), one_changed(j0, j1, e as int),
+        j1[e as int].history_output == j0[e as int].history_output,
+        j0[e as int].state == jobs0[e as int].state,
+        forall|i: int, k: int| 0 <= i < j0.len() && 0 <= k < j0.len() && i != k ==> (#[trigger] j0[i]).job_id != (#[trigger] j0[k]).job_id,
+        forall|i: int| 0 <= i < j0.len() ==> (is_rfc(#[trigger] j0[i].state) <==> set0.contains(j0[i].job_id)),
+        j1[e as int].state == j0[e as int].state && set1 == set0
+            || is_nrfc(j0[e as int].state) && is_rfc(j1[e as int].state) && set1 == set0.insert(j0[e as int].job_id)
+            || is_nrfc(j0[e as int].state) && is_skipfc(j1[e as int].state) && set1 == set0,
+    ensures
+        cleanup_frame(jobs0, j1),
+        forall|i: int, k: int| 0 <= i < j1.len() && 0 <= k < j1.len() && i != k ==> (#[trigger] j1[i]).job_id != (#[trigger] j1[k]).job_id,
+        forall|i: int| 0 <= i < j1.len() ==> (is_rfc(#[trigger] j1[i].state) <==> set1.contains(j1[i].job_id)),
+{
+    assert forall|i: int| 0 <= i < jobs0.len() implies (#[trigger] j1[i]).job_id == jobs0[i].job_id && j1[i].history_output == jobs0[i].history_output
+        && (j1[i].state == jobs0[i].state || (is_nrfc(jobs0[i].state) && (is_rfc(j1[i].state) || is_skipfc(j1[i].state)))) by {
+        if i != e as int { assert(j1[i] == j0[i]); }
+        assert(j0[i].job_id == jobs0[i].job_id);
+    }
+    assert forall|i: int, k: int| 0 <= i < j1.len() && 0 <= k < j1.len() && i != k implies (#[trigger] j1[i]).job_id != (#[trigger] j1[k]).job_id by {
+        if i != e as int { assert(j1[i] == j0[i]); }
+        if k != e as int { assert(j1[k] == j0[k]); }
+        assert(j0[i].job_id != j0[k].job_id);
+    }
+    assert forall|i: int| 0 <= i < j1.len() implies (is_rfc(#[trigger] j1[i].state) <==> set1.contains(j1[i].job_id)) by {
+        if i != e as int {
+            assert(j1[i] == j0[i]);
+            assert(j0[i].job_id != j0[e as int].job_id);
+            assert(is_rfc(j0[i].state) <==> set0.contains(j0[i].job_id));
+        } else {
+            assert(is_rfc(j0[i].state) <==> set0.contains(j0[i].job_id));
+        }
+    }
+}
+
+// ---- the cascade invariant over the evaluator's fields (usable from the static helper functions)
+spec fn core_ok(jobs: Seq<NodeInfo>, m: Map<String, usize>, dag: &GraphType, ready: Set<String>, cleanup: Set<String>, fin: bool) -> bool {
+    &&& ids_wf(jobs, m)
+    &&& edges_in_range(dag, jobs.len())
+    &&& ready_set_wf(jobs, ready, m)
+    &&& cleanup_set_wf(jobs, cleanup, m)
+    &&& out_wf(jobs)
+    &&& (fin ==> forall|i: int| 0 <= i < jobs.len() ==> finished(#[trigger] jobs[i].state))
+}
+
+spec fn dag_dom_same(a: &GraphType, b: &GraphType) -> bool {
+    a.nodes_set() == b.nodes_set() && a.edges().dom() =~= b.edges().dom()
+}
+
+proof fn lemma_dag_dom_range(a: &GraphType, b: &GraphType, n: nat)
+    requires dag_dom_same(a, b), edges_in_range(a, n),
+    ensures edges_in_range(b, n),
+        forall|x: usize, y: usize| #![trigger b.has_edge(x, y)] b.has_edge(x, y) == a.has_edge(x, y),
+        forall|x: usize, d: Direction, y: usize| #![trigger b.is_nbr(x, d, y)] b.is_nbr(x, d, y) == a.is_nbr(x, d, y),
+{
+    assert forall|x: usize, y: usize| #![trigger b.has_edge(x, y)] b.has_edge(x, y) == a.has_edge(x, y) by {
+        assert(b.edges().dom().contains((x, y)) == a.edges().dom().contains((x, y)));
+    }
+}
+
+/// one state write (a set_node_state! expansion and the bookkeeping that goes with it)
+proof fn lemma_write_ok(pre: Seq<NodeInfo>, post: Seq<NodeInfo>, m: Map<String, usize>, dag: &GraphType,
+    r0: Set<String>, r1: Set<String>, c0: Set<String>, c1: Set<String>, fin: bool, n: int)
+    requires
+        core_ok(pre, m, dag, r0, c0, fin), one_changed(pre, post, n),
+        lc_le(pre[n].state, post[n].state), out_wf_one(post[n]),
+        pre[n].history_output is Some ==> post[n].history_output == pre[n].history_output,
+        is_ready(pre[n].state) == is_ready(post[n].state) ==> r1 == r0,
+        is_ready(pre[n].state) && !is_ready(post[n].state) ==> r1 == r0.remove(pre[n].job_id),
+        !is_ready(pre[n].state) && is_ready(post[n].state) ==> r1 == r0.insert(pre[n].job_id),
+        is_rfc(pre[n].state) == is_rfc(post[n].state) ==> c1 == c0,
+        is_rfc(pre[n].state) && !is_rfc(post[n].state) ==> c1 == c0.remove(pre[n].job_id),
+        !is_rfc(pre[n].state) && is_rfc(post[n].state) ==> c1 == c0.insert(pre[n].job_id),
+    ensures core_ok(post, m, dag, r1, c1, fin), jobs_step(pre, post),
+{
+    lemma_ids_after_write(pre, post, m, n);
+    lemma_ready_set_after_write(pre, post, m, r0, r1, n);
+    lemma_cleanup_set_after_write(pre, post, m, c0, c1, n);
+    lemma_out_after_write(pre, post, n);
+    lemma_step_after_write(pre, post, n);
+    lemma_lc_consequences(pre[n].state, post[n].state);
+    if fin { lemma_all_finished_after_write(pre, post, n); }
+}
+
+/// helper calls that only move pre-offer states
+proof fn lemma_soft_ok(pre: Seq<NodeInfo>, post: Seq<NodeInfo>, m: Map<String, usize>, dag: &GraphType,
+    r0: Set<String>, c0: Set<String>, fin: bool)
+    requires core_ok(pre, m, dag, r0, c0, fin), jobs_soft(pre, post),
+    ensures core_ok(post, m, dag, r0, c0, fin), jobs_step(pre, post),
+{
+    assert forall|i: int| 0 <= i < post.len() implies #[trigger] m.contains_key(post[i].job_id)
+            && m[post[i].job_id] == i && valid_id(post[i].job_id@) by {
+        assert(post[i].job_id == pre[i].job_id);
+        assert(m.contains_key(pre[i].job_id));
+    }
+    assert forall|k: String| #[trigger] m.contains_key(k) implies m[k] < post.len() && post[m[k] as int].job_id == k by {
+        let i = m[k] as int;
+        assert(pre[i].job_id == k);
+        assert(post[i].job_id == pre[i].job_id);
+    }
+    assert forall|i: int| 0 <= i < post.len() implies (is_ready(#[trigger] post[i].state) <==> r0.contains(post[i].job_id)) by {
+        assert(post[i].job_id == pre[i].job_id);
+        assert(is_ready(pre[i].state) <==> r0.contains(pre[i].job_id));
+    }
+    assert forall|i: int| 0 <= i < post.len() implies (is_rfc(#[trigger] post[i].state) <==> c0.contains(post[i].job_id)) by {
+        assert(post[i].job_id == pre[i].job_id);
+        assert(is_rfc(pre[i].state) <==> c0.contains(pre[i].job_id));
+    }
+    assert forall|i: int| 0 <= i < post.len() implies out_wf_one(#[trigger] post[i]) by {
+        assert(post[i].history_output == pre[i].history_output);
+        assert(out_wf_one(pre[i]));
+    }
+    if fin {
+        assert forall|i: int| 0 <= i < post.len() implies finished(#[trigger] post[i].state) by {
+            assert(post[i].job_id == pre[i].job_id);
+            assert(finished(pre[i].state));
+        }
+    }
+    assert forall|i: int| 0 <= i < pre.len() implies lc_le(pre[i].state, (#[trigger] post[i]).state) by {
+        assert(post[i].job_id == pre[i].job_id);
+    }
+    assert forall|i: int| 0 <= i < pre.len() implies (#[trigger] post[i]).job_id == pre[i].job_id by {}
+    assert forall|i: int| 0 <= i < pre.len() implies (pre[i].history_output is Some ==> (#[trigger] post[i]).history_output == pre[i].history_output) by {
+        assert(post[i].job_id == pre[i].job_id);
+    }
+}
+
+proof fn lemma_touch_is_soft(pre: Seq<NodeInfo>, post: Seq<NodeInfo>)
+    requires jobs_touch(pre, post),
+    ensures jobs_soft(pre, post),
+{
+    assert forall|i: int| 0 <= i < pre.len() implies (#[trigger] post[i]).job_id == pre[i].job_id && post[i].history_output == pre[i].history_output
+            && (post[i].state == pre[i].state || (pre_offer(pre[i].state) && pre_offer(post[i].state) && same_kind(pre[i].state, post[i].state))) by {}
+}
+
+proof fn lemma_soft_trans(a: Seq<NodeInfo>, b: Seq<NodeInfo>, c: Seq<NodeInfo>)
+    requires jobs_soft(a, b), jobs_soft(b, c),
+    ensures jobs_soft(a, c),
+{
+    assert forall|i: int| 0 <= i < a.len() implies (#[trigger] c[i]).job_id == a[i].job_id && c[i].history_output == a[i].history_output
+            && (c[i].state == a[i].state || (pre_offer(a[i].state) && pre_offer(c[i].state) && same_kind(a[i].state, c[i].state))) by {
+        assert(b[i].job_id == a[i].job_id);
+    }
+}
+
+/// the cleanup decision of JobDone
+proof fn lemma_cleanup_ok(pre: Seq<NodeInfo>, post: Seq<NodeInfo>, m: Map<String, usize>, dag: &GraphType,
+    r0: Set<String>, c0: Set<String>, c1: Set<String>, fin: bool)
+    requires
+        core_ok(pre, m, dag, r0, c0, fin), cleanup_frame(pre, post),
+        forall|i: int| 0 <= i < post.len() ==> (is_rfc(#[trigger] post[i].state) <==> c1.contains(post[i].job_id)),
+        forall|k: String| #[trigger] c1.contains(k) ==> c0.contains(k) || exists|i: int| 0 <= i < pre.len() && #[trigger] pre[i].job_id == k,
+    ensures core_ok(post, m, dag, r0, c1, fin), jobs_step(pre, post),
+{
+    assert forall|i: int| 0 <= i < post.len() implies #[trigger] m.contains_key(post[i].job_id)
+            && m[post[i].job_id] == i && valid_id(post[i].job_id@) by {
+        assert(post[i].job_id == pre[i].job_id);
+        assert(m.contains_key(pre[i].job_id));
+    }
+    assert forall|k: String| #[trigger] m.contains_key(k) implies m[k] < post.len() && post[m[k] as int].job_id == k by {
+        let i = m[k] as int;
+        assert(pre[i].job_id == k);
+        assert(post[i].job_id == pre[i].job_id);
+    }
+    assert forall|i: int| 0 <= i < post.len() implies (is_ready(#[trigger] post[i].state) <==> r0.contains(post[i].job_id)) by {
+        assert(post[i].job_id == pre[i].job_id);
+        assert(is_ready(pre[i].state) <==> r0.contains(pre[i].job_id));
+    }
+    assert forall|k: String| #[trigger] c1.contains(k) implies m.contains_key(k) by {
+        if !c0.contains(k) {
+            let i = choose|i: int| 0 <= i < pre.len() && #[trigger] pre[i].job_id == k;
+            assert(m.contains_key(pre[i].job_id));
+        }
+    }
+    assert forall|i: int| 0 <= i < post.len() implies out_wf_one(#[trigger] post[i]) by {
+        assert(post[i].history_output == pre[i].history_output);
+        assert(out_wf_one(pre[i]));
+    }
+    if fin {
+        assert forall|i: int| 0 <= i < post.len() implies finished(#[trigger] post[i].state) by {
+            assert(post[i].job_id == pre[i].job_id);
+            assert(finished(pre[i].state));
+        }
+    }
+    assert forall|i: int| 0 <= i < pre.len() implies lc_le(pre[i].state, (#[trigger] post[i]).state) by {
+        assert(post[i].job_id == pre[i].job_id);
+    }
+    assert forall|i: int| 0 <= i < pre.len() implies (#[trigger] post[i]).job_id == pre[i].job_id by {}
+    assert forall|i: int| 0 <= i < pre.len() implies (pre[i].history_output is Some ==> (#[trigger] post[i]).history_output == pre[i].history_output) by {
+        assert(post[i].job_id == pre[i].job_id);
+    }
+}
+
+impl<T: PPGEvaluatorStrategy> PPGEvaluator<T> {
+    spec fn core(&self) -> bool {
+        core_ok(self.jobs@, self.job_id_to_node_idx@, &self.dag, self.jobs_ready_to_run@, self.jobs_ready_for_cleanup@, self.already_started is Finished)
     }
 }
